@@ -1,6 +1,7 @@
 package harness
 
 import (
+	"time"
 	"fmt"
 	"regexp"
 	"sort"
@@ -207,12 +208,29 @@ func runC13(t *testing.T, c simrt.Chooser, o Opts) *Out {
 	// lines
 	n := 1 + p.n("nlines", 14)
 	nbadMax := 1 + p.n("nbadmax", 3)
+	// error burst: a long list, most of its lines bad in ways that do not stop the reader, and a
+	// slow log sink - far more error records in flight than the 100-slot error channels hold
+	burst := !s.app() && p.pct("errburst", 4)
+	badPct := 30
+	if burst {
+		n = 120 + p.n("nburst", 250)
+		nbadMax, badPct = n, 75
+	}
 	var lines []c13Line
 	nbad := 0
 	valid := genEntries(p, n, withPort, remotePct)
 	for i := 0; i < n; i++ {
 		e := valid[i]
-		if nbad < nbadMax && p.pct("bad", 30) {
+		if burst && nbad < nbadMax && p.pct("bad", badPct) {
+			bl := c13BadLine(p, withPort, e.IP)
+			for len(bl.Classes) != 1 || (bl.Classes[0] != "address" && bl.Classes[0] != "port") {
+				bl = c13BadLine(p, withPort, e.IP)
+			}
+			lines = append(lines, bl)
+			nbad++
+			continue
+		}
+		if !burst && nbad < nbadMax && p.pct("bad", 30) {
 			lines = append(lines, c13BadLine(p, withPort, e.IP))
 			nbad++
 			continue
@@ -281,6 +299,10 @@ func runC13(t *testing.T, c simrt.Chooser, o Opts) *Out {
 		w.Files[targetsFn] = sb.String()
 	}
 	w.NumCPU = p.pick("numcpu", 1, 2, 4, 16)
+	if burst {
+		w.ErrStallEvery = 1
+		w.ErrStallFor = p.dur("errstall", 100*time.Microsecond, 2*time.Millisecond).String()
+	}
 	w.tcp = refuseAll
 	sc.World = w
 	shown := make([]c13Line, len(lines))
